@@ -4,7 +4,10 @@
     Pinned reading of "cell reference" (DESIGN.md §6 C15): a maximal run of identifier characters
     (`A–Z a–z 0–9 _ . $` and non-ASCII characters) that matches `$?[A-Za-z]{1,3}$?[0-9]{1,7}` with
     column ≤ XFD and row in 1 … 1 048 576 and is followed neither by `(` (a function name such as
-    `LOG10(`) nor by `!` (a sheet name such as `AB1!`); everything inside `"…"` or `'…'` is opaque.
+    `LOG10(`) nor by `!` (a sheet name such as `AB1!`) nor by `[` (a table name such as `Tbl1[`);
+    everything inside `"…"` or `'…'` is opaque, and so is a bracketed span `[…]` (the specifier of a
+    structured reference `Table1[[#This Row],[Q1]]`, or a workbook index `[1]`): brackets nest, and
+    inside them `'` escapes the next character (`'[`, `']`, `'#`, `''`).
 
     This file is independent of the model (`Model/SharedFormula.lean`): column letters are given
     in closed form, decimals by Lean's own `Nat.repr`. -/
@@ -25,7 +28,9 @@ inductive Tok where
   | ident (s : List Char)
   /-- number (digits and `.`) -/
   | num (s : List Char)
-  /-- operator, parenthesis, separator, blank … : one non-identifier, non-quote character -/
+  /-- bracketed span `[s]`: structured-reference specifier or workbook index (opaque) -/
+  | struct (s : List Char)
+  /-- operator, parenthesis, separator, blank … : one non-identifier, non-quote, non-`[` character -/
   | punct (c : Char)
   deriving Repr, DecidableEq
 
@@ -51,6 +56,7 @@ def renderTok : Tok → List Char
   | .sheet n false => n ++ ['!']
   | .ident s => s
   | .num s => s
+  | .struct s => '[' :: s ++ [']']
   | .punct c => [c]
 
 def render : List Tok → List Char
@@ -100,11 +106,25 @@ def endsRun (next : Option Char) : Bool :=
   | some c => !identChar c
   | none => true
 
-/-- the next character is neither `(` nor `!` -/
+/-- the next character is neither `(` nor `!` nor `[` -/
 def notCallOrSheet (next : Option Char) : Bool :=
   match next with
-  | some c => c != '(' && c != '!'
+  | some c => c != '(' && c != '!' && c != '['
   | none => true
+
+/-- bracket depth after reading `s` from depth `d` (relative to the enclosing `[`): `'` skips the
+    next character (`esc`: the previous character was such a `'`); `none` if a `]` would close more
+    than was opened or the text ends in a lone `'` -/
+def bracketScanAux : Bool → Nat → List Char → Option Nat
+  | esc, d, [] => if esc then none else some d
+  | true, d, _ :: cs => bracketScanAux false d cs
+  | false, d, c :: cs =>
+    if c = '\'' then bracketScanAux true d cs
+    else if c = '[' then bracketScanAux false (d + 1) cs
+    else if c = ']' then (if d = 0 then none else bracketScanAux false (d - 1) cs)
+    else bracketScanAux false d cs
+
+def bracketScan (d : Nat) (s : List Char) : Option Nat := bracketScanAux false d s
 
 def inSheet (row col : Int) : Bool :=
   0 ≤ row && row < (MAX_ROWS : Int) && 0 ≤ col && col < (MAX_COLUMNS : Int)
@@ -112,12 +132,14 @@ def inSheet (row col : Int) : Bool :=
 /-- well-formedness of one token in front of the character `next` (`none` = end of the text),
     for the translation `d`:
     * a reference lies in the sheet, stays in the sheet when shifted, and is followed neither by
-      an identifier character nor by `(` or `!`;
+      an identifier character nor by `(`, `!` or `[`;
     * strings / quoted sheet names do not contain their own quote character;
     * unquoted sheet names, identifiers and numbers are non-empty runs of identifier characters,
       separated from a following identifier-like token by some other character; an identifier may
       look like a cell only in front of `(` or `!`;
-    * punctuation is a single character that neither belongs to identifiers nor opens a quote. -/
+    * the inside of a bracketed span is balanced (`bracketScan 0 s = some 0`);
+    * punctuation is a single character that neither belongs to identifiers nor opens a quote or a
+      bracketed span. -/
 def tokWF (d : Int × Int) (t : Tok) (next : Option Char) : Bool :=
   match t with
   | .ref ca c ra r =>
@@ -129,7 +151,8 @@ def tokWF (d : Int × Int) (t : Tok) (next : Option Char) : Bool :=
   | .sheet n false => !n.isEmpty && n.all identChar
   | .ident s => !s.isEmpty && s.all identChar && endsRun next && (!cellLike s || !notCallOrSheet next)
   | .num s => !s.isEmpty && s.all (fun c => c.isDigit || c = '.') && endsRun next
-  | .punct c => !identChar c && c != '"' && c != '\''
+  | .struct s => bracketScan 0 s == some 0
+  | .punct c => !identChar c && c != '"' && c != '\'' && c != '['
 
 /-- well-formed (unambiguously rendered) token list for the translation `d` -/
 def wf (d : Int × Int) : List Tok → Bool
